@@ -153,10 +153,15 @@ fn get_table_columns(node: FuncCall<'_>) -> Option<usize> {
     for node in node.args().items() {
         if let Arg::Named(name) = node {
             if name.name().as_str() == "columns" {
-                if let Some(count) = name.expr().to_untyped().cast::<Int>() {
+                // Redundant parentheses are dropped when printing, so `(2)` counts like `2`.
+                let mut expr = name.expr();
+                while let Expr::Parenthesized(inner) = expr {
+                    expr = inner.expr();
+                }
+                if let Some(count) = expr.to_untyped().cast::<Int>() {
                     return Some(count.get() as usize);
                 }
-                if let Some(arr) = name.expr().to_untyped().cast::<Array>() {
+                if let Some(arr) = expr.to_untyped().cast::<Array>() {
                     return Some(arr.items().count());
                 }
             }
